@@ -597,7 +597,11 @@ func init() {
 					obs()
 				case 6: // k simultaneous handshakes of one identity: exactly one registers, stays open, delivers
 					for q := 1; q <= 4; q++ {
-						p("race %d %d %s", q, r.pick(2, 4, 8), r.pickS("held", "held", "free"))
+						mode := r.pickS("held", "held", "free")
+						if q == 1 {
+							mode = "held" // always present: released together from behind the manager's lock
+						}
+						p("race %d %d %s", q, r.pick(2, 4, 8), mode)
 						p("peer %d", q)
 					}
 					p("race 1 %d held", r.pick(2, 6)) // peer 1 is connected already: all are rejected
